@@ -10,14 +10,15 @@ from .lib.mir import AnchorLost
 CONFIGS_QUICK = ["A", "R"]
 CONFIGS_THOROUGH = ["A", "R", "ASYNCSTD", "SMOL", "NIO", "GLOMMIO"]
 TECHNIQUE = "order/dominance rules on the stream arm of the send coroutine (built MIR), literal framing tables, decision-table extraction of QueueStream::poll_next"
-LEVEL_TEXT = ("Decides clauses C17-a..d: in the stream arm of Response::send the head is written and flushed before the first item; each item is framed as "
-              "hex(size) CRLF message CRLF with the size taken from the finished message (no write to it between the size computation and the append) and "
-              "its leading zeros stripped safely; each line is emitted as `data: ` line LF and the message ends with one more LF; every way out of the item "
-              "loop writes the terminal chunk `0 CRLF CRLF` before the arm returns; whoever stores Content::Stream sets chunked coding and removes "
-              "Content-Length; QueueStream::poll_next is exactly the 2x2 table (producer Ready/Pending x queue empty/non-empty), the producer future is "
-              "polled until Ready and dropped from polling only on its Ready edge, set-up runs once before the first poll, the queue is FIFO with one "
-              "producer and one consumer site; DataStream::new pins the self-referential stream on the heap before anything can poll it. Decides these "
-              "clauses, not message integrity for all texts (a lone CR inside a message is not handled by `split('\\n')`) nor delivery under all schedules.")
+LEVEL_TEXT = ('Decides clauses C17-a..d: in the stream arm of Response::send the head is written and flushed before the first item; each item is framed as hex(size) '
+              'CRLF message CRLF with the size taken from the finished message (no write to it between the size computation and the append) and its leading zeros str'
+              'ipped safely; each line is emitted as `data: ` line LF and the message ends with one more LF; every way out of the item loop writes the terminal chunk'
+              ' `0 CRLF CRLF` before the arm returns; whoever stores Content::Stream sets chunked coding and removes Content-Length; QueueStream::poll_next is exactl'
+              'y the 2x2 table (producer Ready/Pending x queue empty/non-empty), the producer future is polled until Ready and dropped from polling only on its Ready'
+              ' edge, set-up runs once before the first poll, the queue is FIFO with one producer and one consumer site; DataStream::new pins the self-referential st'
+              'ream on the heap before anything can poll it. Per item and per line on every path: once the stream (the line iterator) answered Some it is not asked a'
+              "gain before the chunk was written (the line's writes were made). Decides these clauses, not message integrity for all texts (a lone CR inside a messag"
+              "e is not handled by `split('\\n')`) nor delivery under all schedules.")
 
 
 def run(ck, progs):
